@@ -479,6 +479,10 @@ func writeReplayFile(o *options, prop, oblName string, content map[string]any) s
 
 func report(p *Prog, cr *checkResult, o *options, wall float64) int {
 	known := loadKnown(o)
+	if o.only == "" && cr.prop != "" {
+		// replay files describe the current run only
+		os.RemoveAll(filepath.Join(o.verif, "replays", cr.prop))
+	}
 	var nObl, nDis, nCover, nCoverOK, nCoverUnknown int
 	var failed, coverFailed []*Obligation
 	byBackend := map[string]int{}
